@@ -46,6 +46,14 @@ ROOT_TREE = {
     "dir/index.html": b"DIR INDEX",
     "dir/f.txt": b"DIR F",
     "empty": None,
+    # names with space and format characters other than the ASCII blank (narrow no-break space as in macOS screenshot names,
+    # ideographic space, no-break space, zero-width space), and with DEL
+    "shot\u202f1.txt": b"NNBSP NAME",
+    "ideo\u3000graphic": None,
+    "ideo\u3000graphic/index.html": b"IDEOGRAPHIC SPACE DIR INDEX",
+    "nb\u00a0sp.html": b"NBSP PAGE",
+    "zw\u200bsp.txt": b"ZWSP NAME",
+    "del\x7f.txt": b"DEL NAME",
     # names that contain U+FFFD, an ordinary character (bytes EF BF BD) that some code uses as an error marker
     "\ufffd.txt": b"REPLACEMENT CHARACTER NAME",
     "r\ufffdd": None,
@@ -181,6 +189,31 @@ class Sandbox:
             os.environ["HOME"] = os.path.join(self.decoy, "root")
             os.chdir(self.dir)
             args, kw = ("~",), {}
+        elif spelling == "dotpkg":
+            # a directory relative to a package whose name starts with a dot (".well" - like ".well-known"); next to it, inside the
+            # package, a directory with the same name without the dot holds a decoy tree
+            import importlib
+            pk = os.path.join(self.parent, "c07dot")
+            for base, deco in ((os.path.join(pk, ".well"), b""), (os.path.join(pk, "well"), b"DECOY:")):
+                for rel, data in ROOT_TREE.items():
+                    p_ = os.path.join(base, rel)
+                    if data is None:
+                        os.makedirs(p_, exist_ok=True)
+                    elif isinstance(data, bytes):
+                        os.makedirs(os.path.dirname(p_), exist_ok=True)
+                        with open(p_, "wb") as f:
+                            f.write(deco + data)
+            for rel, data in OUTSIDE.items():
+                p_ = os.path.join(pk, rel)
+                os.makedirs(os.path.dirname(p_), exist_ok=True)
+                with open(p_, "wb") as f:
+                    f.write(data)
+            open(os.path.join(pk, "__init__.py"), "w").close()
+            _AUDIT["sandbox"] = os.path.realpath(pk)
+            _AUDIT["root"] = os.path.realpath(os.path.join(pk, ".well"))
+            sys.path.insert(0, self.parent)
+            importlib.invalidate_caches()
+            args, kw = (".well",), {"package": "c07dot"}
         elif spelling == "dotted":
             # the served directory is named relative to a sub-package ("c07outer.inner"); the enclosing package has a directory
             # of the same name
@@ -242,6 +275,9 @@ class Sandbox:
             if spelling == "package":
                 sys.path.remove(self.parent)
                 sys.modules.pop("c07pkg", None)
+            if spelling == "dotpkg":
+                sys.path.remove(self.parent)
+                sys.modules.pop("c07dot", None)
             if spelling == "dotted":
                 sys.path.remove(self.parent)
                 sys.modules.pop("c07outer", None)
@@ -255,6 +291,7 @@ class Sandbox:
 
 
 ROOTNAME = ["root"]
+LAST = {}  # what each of the four applications answered to the path judged last (for the twin comparison)
 
 
 def resolve(path):
@@ -336,6 +373,7 @@ def judge(r, apps, spelling, iface, kind, path, root="", note=None):
     app = apps[(iface, kind)]
     _AUDIT["log"] = []
     got, res = request(app, iface, path, root)
+    LAST[(iface, kind)] = got
     want = ref(kind, path)
     r.count("evaluations")
     if want[0] in ("file", "redirect"):
@@ -419,6 +457,8 @@ def all_paths(depth):
         yield p
     for p in ("/twin_a.txt", "/twin_b.txt", "/twin_a.txt", "/dir/twin_c.txt", "/twin_b.txt", "/sock", "/sock/", "/sock.html", "/dir/../sock", deep + "/deep.txt", deep, deep + "/", deep + "/deep.txt/", deep + "/index", deep + "/../" + "N" * 60 + "/deep.txt"):
         yield p  # (kept in this order and not de-duplicated: the twins are asked for alternately)
+    for p in ("/shot\u202f1.txt", "/ideo\u3000graphic/", "/ideo\u3000graphic", "/nb\u00a0sp", "/nb\u00a0sp.html", "/zw\u200bsp.txt", "/del\x7f.txt", "/shot 1.txt", "/zwsp.txt"):
+        yield p
     for p in ("/\ufffd.txt", "/r\ufffdd/", "/r\ufffdd", "/r\ufffdd/index.html", "/p\ufffd", "/p\ufffd.html", "/\ufffd"):
         yield p
     # request lines are not all origin-form: a path without the leading slash (as some servers hand it over unchanged)
@@ -504,7 +544,7 @@ def chain_family(r, tier):
 
 def shards(tier, seed):
     n = 8 if tier == "quick" else 32
-    return [("paths", spelling, k, n) for spelling in ("absolute", "relative", "package", "unicode", "handle404") for k in range(n)] + [("paths", "dotted", k, 2) for k in range(2)] + [("paths", "symlink", k, 2) for k in range(2)] + [("paths", "tilde", k, 2) for k in range(2)] + [("threads", "Files"), ("threads", "Pages"), ("chain",), ("layouts",), ("layouts", "nested")] + [("python-O", ("paths", "absolute", 0, n)), ("python-O", ("paths", "relative", 1, n)), ("python-O", ("chain",)), ("python-O", ("layouts",))]
+    return [("paths", spelling, k, n) for spelling in ("absolute", "relative", "package", "unicode", "handle404") for k in range(n)] + [("paths", "dotted", k, 2) for k in range(2)] + [("paths", "symlink", k, 2) for k in range(2)] + [("paths", "tilde", k, 2) for k in range(2)] + [("paths", "dotpkg", k, 2) for k in range(2)] + [("threads", "Files"), ("threads", "Pages"), ("chain",), ("layouts",), ("layouts", "nested")] + [("python-O", ("paths", "absolute", 0, n)), ("python-O", ("paths", "relative", 1, n)), ("python-O", ("chain",)), ("python-O", ("layouts",))]
 
 
 def thread_family(r, kind, tier):
@@ -612,14 +652,22 @@ def run_shard(desc, tier):
         return r
     _, spelling, k, n = desc
     sb = Sandbox()
-    ROOTNAME[0] = {"unicode": "raíz文", "symlink": "current", "tilde": "~"}.get(spelling, "root")
+    ROOTNAME[0] = {"unicode": "raíz文", "symlink": "current", "tilde": "~", "dotpkg": ".well"}.get(spelling, "root")
     try:
         apps = sb.apps(spelling)
         paths = list(all_paths(DEPTH[tier]))[k::n]
         for path in paths:
+            for kind in ("Files", "Pages"):
+                LAST.clear()
+                for iface in ("wsgi", "asgi"):
+                    judge(r, apps, spelling, iface, kind, path)
+                # where the statement leaves an outcome open (a regular file asked for with a trailing slash), the two
+                # interfaces of one application still decide it the same way
+                a_, b_ = LAST.get(("wsgi", kind)), LAST.get(("asgi", kind))
+                if a_ is not None and b_ is not None and a_[0] != b_[0] and {a_[0], b_[0]} <= {"file", "notfound"}:
+                    r.violation("twins-differ", {"spelling": spelling, "iface": "asgi", "kind": kind, "path": path, "root": "", "twins": True}, f"{kind}({spelling}) on {path!r}: the WSGI application answers {a_!r:.60}, the ASGI one {b_!r:.60}")
             for iface in ("wsgi", "asgi"):
                 for kind in ("Files", "Pages"):
-                    judge(r, apps, spelling, iface, kind, path)
                     if path.count("/") <= 2 and spelling == "absolute":
                         # the app mounted under a prefix whose name also exists inside the served tree
                         judge(r, apps, spelling, iface, kind, path, "/dir")
@@ -653,9 +701,17 @@ def replay(w):
         thread_family(r, w["threads"], "quick")
         return bool(r.viol), {"violations": sorted(r.viol), "texts": [v[2][:300] for v in r.viol.values()]}
     sb = Sandbox()
-    ROOTNAME[0] = {"unicode": "raíz文", "symlink": "current", "tilde": "~"}.get(w["spelling"], "root")
+    ROOTNAME[0] = {"unicode": "raíz文", "symlink": "current", "tilde": "~", "dotpkg": ".well"}.get(w["spelling"], "root")
     try:
         apps = sb.apps(w["spelling"])
+        if w.get("twins"):
+            LAST.clear()
+            for iface in ("wsgi", "asgi"):
+                judge(r, apps, w["spelling"], iface, w["kind"], w["path"])
+            a_, b_ = LAST.get(("wsgi", w["kind"])), LAST.get(("asgi", w["kind"]))
+            if a_ is not None and b_ is not None and a_[0] != b_[0]:
+                r.violation("twins-differ", w, f"WSGI {a_!r:.60} vs ASGI {b_!r:.60}")
+            return bool(r.viol), {"violations": sorted(r.viol), "texts": [v[2][:300] for v in r.viol.values()]}
         judge(r, apps, w["spelling"], w["iface"], w["kind"], w["path"], w.get("root", ""))
     finally:
         sb.close()
